@@ -139,7 +139,7 @@ pub fn stirl_gamma(a: f64) -> f64 {
 pub fn bd0(x: f64, m: f64) -> f64 {
     // x ln(x/m) + m - x = -x * log1pmx((m-x)/x)
     let d = (m - x) / x;
-    if d > -1.0 && d.is_finite() {
+    if d > -0.9 && d.is_finite() {
         -x * log1pmx(d)
     } else {
         x * (x / m).ln() + m - x
@@ -157,7 +157,11 @@ pub fn gamma_prefix(a: f64, x: f64, d: f64) -> f64 {
     }
     // Gamma(a+1) = a Gamma(a) = sqrt(2 pi a) a^a e^-a e^{stirl(a)}
     let mu = d / a;
-    let dev = if mu > -1.0 { -a * log1pmx(mu) } else { bd0(a, x) };
+    if mu < -0.9 || !(mu < 1e3) {
+        // x << a: no cancellation problem, but 1+mu would lose the small x
+        return (a * x.ln() - x - ln_gamma(a + 1.0)).exp();
+    }
+    let dev = -a * log1pmx(mu);
     (-dev - stirl_gamma(a)).exp() / (SQRT_2PI * a.sqrt())
 }
 
@@ -176,6 +180,9 @@ pub fn gamma_pq_d(a: f64, x: f64, d: f64) -> (f64, f64) {
     }
     if a > 2.0e7 {
         return gamma_pq_temme(a, d);
+    }
+    if x > 3.0 * a + 800.0 {
+        return (1.0, 0.0); // Q < exp(-745)
     }
     let pre = gamma_prefix(a, x, d);
     if x < a + 1.0 {
@@ -331,6 +338,17 @@ pub fn ibeta(a: f64, b: f64, x: f64, y: f64) -> (f64, f64) {
     if !(y > 0.0) {
         return (1.0, 0.0);
     }
+    if x < 1e-290 || y < 1e-290 {
+        // leading term only (the next one is O(x)); avoids underflow of (a+b)*x for subnormal x
+        let lead = |a: f64, b: f64, x: f64| (a * x.ln() + ln_gamma(a + b) - ln_gamma(a + 1.0) - ln_gamma(b)).exp();
+        return if x < 1e-290 {
+            let v = lead(a, b, x).min(1.0);
+            (v, 1.0 - v)
+        } else {
+            let v = lead(b, a, y).min(1.0);
+            (1.0 - v, v)
+        };
+    }
     let pre = beta_prefix(a, b, x, y);
     if x < (a + 1.0) / (a + b + 2.0) {
         let v = (pre * beta_cf(a, b, x) / a).min(1.0);
@@ -339,4 +357,17 @@ pub fn ibeta(a: f64, b: f64, x: f64, y: f64) -> (f64, f64) {
         let v = (pre * beta_cf(b, a, y) / b).min(1.0);
         (1.0 - v, v)
     }
+}
+
+/// (P, Q) of Gamma(a) at t = x/scale, robust against underflow of the quotient.
+pub fn gamma_pq_scaled(a: f64, x: f64, scale: f64) -> (f64, f64) {
+    if !(x > 0.0) {
+        return (0.0, 1.0);
+    }
+    let t = x / scale;
+    if t < 1e-290 {
+        let p = (a * (x.ln() - scale.ln()) - ln_gamma(a + 1.0)).exp().min(1.0);
+        return (p, 1.0 - p);
+    }
+    gamma_pq(a, t)
 }
